@@ -105,6 +105,19 @@ fn voicing(engine0: &Engine, rng: &mut Rng, corpus: &Corpus, evs: &mut Vec<Value
         evs.push(json!({"ev": "render", "equal": digest(&w) == digest(&direct), "frames": lf0.len(), "voiced_below_20hz": low,
                         "unvoiced": lf0.iter().filter(|f| f[0] == NODATA).count()}));
     }
+    // thresholds on streams that have no voicing decision (spectrum, low-pass) are inert over the whole range [0, 1]
+    {
+        let mut e2 = engine0.clone();
+        let b0 = trajectories(&e2, &lines)?;
+        for s in [0usize, 2] {
+            if s < e2.voices.global_metadata().num_streams {
+                e2.condition.set_msd_threshold(s, *rng.pick(&[1.0, 1.0, 0.0, 0.5, 0.999]));
+            }
+        }
+        let b1 = trajectories(&e2, &lines)?;
+        evs.push(json!({"ev": "isolated", "what": "thr[0],thr[2]", "spectrum_equal": digest2(&b1.0) == digest2(&b0.0) && digest2(&b1.1) == digest2(&b0.1),
+                        "lpf_equal": digest2(&b1.2) == digest2(&b0.2)}));
+    }
     // a GV weight change on the log-F0 stream leaves the other streams alone as well
     engine.condition.set_gv_weight(1, rng.uniform(0.0, 2.0));
     let (sp, _, lpf) = trajectories(&engine, &lines)?;
